@@ -5,6 +5,6 @@ P="$1"; ID="$2"; TIER="${3:-quick}"
 cd /repo || exit 2
 if ! git diff --quiet; then echo "repo dirty, refusing"; exit 2; fi
 git apply "$P" || { echo "PATCH DOES NOT APPLY"; exit 3; }
-cd /verif && timeout 1500 ./check "$ID" --tier "$TIER" 2>&1 | grep -v "^\[schemamc\]\|^\[seqmc\]" | head -${LINES_MAX:-12}
+cd /verif && VERIF_NO_EVIDENCE=1 timeout 1500 ./check "$ID" --tier "$TIER" 2>&1 | grep -v "^\[schemamc\]\|^\[seqmc\]" | head -${LINES_MAX:-12}
 rc=$?
 cd /repo && git checkout -- . && git status --short | grep -v '^??' | head
